@@ -316,8 +316,8 @@ def probe():
 
 def env_cases(tier):
     import itertools as it
-    targets = [(0.5, 0.25), (-0.5, 0.25), (0.5, -0.25)]
-    after = ["hold", "exit", "other"]
+    targets = [(0.5, 0.25), (-0.5, 0.25), (0.5, -0.25), (0.5, 0.0), (0.0, 0.25)]
+    after = ["hold", "exit", "other", "enter"]
     for tgt in targets:
         for ci in (0, 1):
             for kind in FAULTS[1:]:
@@ -368,6 +368,9 @@ def run_env_case(case):
             action = np.array(tgt)
         elif after == "exit":
             action = np.array([0.0 if j == ci else tgt[j] for j in range(2)])
+        elif after == "enter":
+            # a NEW position in the faulted contract is requested (it may be flat so far)
+            action = np.array([0.25 if j == ci else tgt[j] for j in range(2)])
         else:
             action = np.array([tgt[j] if j == ci else tgt[j] / 2 for j in range(2)])
         b = env.broker
@@ -378,11 +381,22 @@ def run_env_case(case):
         # state of the faulted book at decision time (events of the previous bar have been processed)
         liq_gone = (q > 0 and not has(book.bid_price)) or (q < 0 and not has(book.ask_price))
         any_gone = not (has(book.bid_price) and has(book.ask_price))
+        # a trade the decision requires in the faulted contract whose EXECUTION side is missing: buying needs the ask
+        w_req = float(action[ci])
+        need_buy = (q == 0 and w_req > 0)
+        exec_gone = need_buy and not has(book.ask_price)
         try:
             o, r, d, info = env.step(action)
             raised = None
         except Exception as ex:
             raised = ex
+        if exec_gone and not liq_gone:
+            if raised is None:
+                msgs.append("step %d returned (done=%r) although the decision opens a position in %s, whose ask is missing"
+                            % (step, d, faulted.symbol))
+            if positions(b) != pre_pos or len(b.track_record) != pre_len:
+                msgs.append("step %d needed a missing quote but positions/track record changed: %r -> %r" % (step, pre_pos, positions(b)))
+            break
         if liq_gone:
             if raised is None:
                 msgs.append("step %d returned (reward %r) although the %s position in %s has no liquidation quote"
